@@ -79,3 +79,20 @@ CHECKS["C18"] = {
     "mandatory_labels": {"all": ["roundtrip/over-limit-frame-not-first", "roundtrip/multi-frame-chunked", "roundtrip/marshalTo-path", "hostile/bad-frame-not-first",
                                  "hostile/hostile-length", "hostile/truncated", "hostile/overlong-varint", "chunking/exhaustive", "arbitrary"]},
 }
+
+CHECKS["C17"] = {
+    "level": "exploration",
+    "level_text": ("generated topics/seeds/instants/intervals against an independently written keyed-digest and period reference, and generated "
+                   "two-peer register/advance/resolve/accept histories executed under testing/synctest's fake clock with a per-step oracle"),
+    "level_note": "trusts crypto/hmac, crypto/sha256, time and testing/synctest's fake clock; real-time sleeps are replaced by the fake clock",
+    "technique": "property-based testing (rapid): reference-model comparison for pure functions, model-based histories under a fake clock",
+    "rule": ("pure: case = (interval, instant, topic, seed); non-trivial = instant on or 1ns next to a period boundary. history: case = operation "
+             "sequence over two peers; non-trivial = a resolve observes its topic across a deadline (rotation). distinct = distinct inputs / op trace"),
+    "assumptions": ["instants are at or after the Unix epoch, intervals are whole seconds >= 1 s",
+                    "point inequality is asserted only where the keyed input (topic|seed) differs as a byte string"],
+    "units": [
+        {"pkg": "pkg/rendezvous", "run": "^TestVerif_C17_", Q: {"timeout": 300}, T: {"timeout": 3000, "shards": 8}},
+    ],
+    "mandatory_labels": {"all": ["pure/period-boundary", "hist/observed-across-deadline", "hist/registered-in-earlier-period", "hist/cross-accept",
+                                 "hist/own-previous-in-grace", "hist/foreign", "static"]},
+}
